@@ -6,9 +6,9 @@ CONSTANTS
   LitSuf <- LitSufD
   IntStyles = {"bare", "tuple"}
   StrLen = 3
-  StrAlpha = {"L", "7", "-", "+", "eL", "sp", "mb", "sl", "pc", "ff", "c3"}
+  StrAlpha = {"L", "7", "-", "+", "eL", "sp", "mb", "sl", "pc", "ff", "c3", "bz"}
   StrLen2 = 4
-  StrAlpha2 = {"L", "7", "eL", "mb", "sl", "ff", "c3"}
+  StrAlpha2 = {"L", "7", "eL", "mb", "sl", "ff", "c3", "bz"}
   BindRoutes <- BindRoutesD
   BindDeep = TRUE
   FullUpTo = 3
